@@ -45,6 +45,11 @@ Definition py_count_true (l : list bool) : Z := Z.of_nat (length (filter (fun b 
 (* next(it) on an iterator over a list (what is left of it): StopIteration at the end *)
 Definition py_next {A} (l : list A) : res (A * list A) := match l with [] => Err EOther | x :: r => Ok (x, r) end.
 
+(* range(a, b, -1): a, a-1, ..., b+1 *)
+Fixpoint range_down_from (a : Z) (n : nat) : list Z :=
+  match n with O => [] | S n' => a :: range_down_from (a - 1) n' end.
+Definition py_range_down (a b : Z) : list Z := range_down_from a (Z.to_nat (a - b)).
+
 (* l.pop() as a statement (the element is discarded): IndexError on the empty list *)
 Definition py_pop_ {A} (l : list A) : res (list A) :=
   match l with [] => Err EOther | _ :: _ => Ok (removelast l) end.
